@@ -58,7 +58,8 @@ from .values import (
 
 
 class LoopSpec:
-    def __init__(self, invariants=(), decreases=None, shapes=None, modifies=(), unroll=False):
+    def __init__(self, invariants=(), decreases=None, shapes=None, modifies=(), unroll=False, abstract=False):
+        self.abstract = abstract  # havoc the loop's write set and skip its body (body NOT verified; reported in the evidence)
         self.invariants = list(invariants)  # [(name, fn(E))]
         self.decreases = decreases  # fn(E) -> Int term, must decrease and stay >= 0
         self.shapes = dict(shapes or {})  # havoc shapes for variables whose shape cannot be inferred
@@ -414,6 +415,7 @@ class Exec:
         self.const_cache = {}
         self.quiet = 0
         self.vname = None
+        self.abstracted_loops = []
 
     # ---------------------------------------------------------------- verification of one function
 
@@ -821,6 +823,18 @@ class Exec:
         ordinal = self._loop_ordinal(stmt)
         contract = self.fn_stack[-1][1]
         spec = contract.loops.get(ordinal) if contract is not None and ordinal is not None else None
+        if spec is not None and spec.abstract:
+            if kind == "for":
+                try:
+                    self.eval(stmt.iter, st, mod, quiet=True)
+                except VCError:
+                    pass  # part of the abstraction: the iterable of an abstracted loop is not modelled
+            self._havoc(stmt, st, mod, spec)
+            if kind == "for":
+                for nm in _target_names(stmt.target):
+                    st.env.pop(nm, None) if isinstance(st.env, dict) and dict.__contains__(st.env, nm) else None
+            self.abstracted_loops.append((self.fn_stack[-1][0], ordinal, stmt.lineno))
+            return [("next", st, None)]
         if kind == "for":
             it = self.iter_seq(self.eval(stmt.iter, st, mod), st, stmt.iter)
             n = it.length
@@ -1638,6 +1652,9 @@ class Exec:
             return o.get(i)
         if isinstance(o, PyDict):
             if is_z3(idx):
+                for kk, vv in o.d.items():
+                    if is_z3(kk) and kk.eq(idx):
+                        return vv
                 raise Unsupported("symbolic key into a concrete-key dict")
             if idx not in o.d:
                 self.safety(st, "key", False, node)
@@ -1666,6 +1683,8 @@ class Exec:
                     return FuncRef(q)
                 return BoundMethod(o, q)
             raise VCError(f"line {getattr(node, 'lineno', '?')}: object of class {o.cls} has no field/method {attr} (shape in the sidecar is incomplete)")
+        if isinstance(o, Builtin):
+            return Builtin(f"{o.name}.{attr}")
         if isinstance(o, _SuperRef):
             cd = self.prog.module(o.module).classes[o.cls]
             for b in cd.bases:
@@ -2209,6 +2228,14 @@ def _lex(ex, op, a, b, st, node):
         e = z3.BoolVal(e) if isinstance(e, bool) else e
         res = z3.Or(c1, z3.And(e, res))
     return z3.simplify(res)
+
+
+def _target_names(t):
+    if isinstance(t, ast.Name):
+        return [t.id]
+    if isinstance(t, (ast.Tuple, ast.List)):
+        return [x for e in t.elts for x in _target_names(e)]
+    return []
 
 
 def _load(t):
